@@ -144,7 +144,14 @@ def _top(h, rs, hy, vtop):
 
 AX = [arctan_axioms]
 
+from props.c15 import h_maxal as _h_maxal, AX as _AX15
+import WallGo.hydrodynamicsTemplateModel as _HT
+
 HARNESSES = [
+    # the bound that makes the template LTE solver return its runaway sentinel
+    HarnessDef("template-maxAl", _h_maxal, [dict(part="residual"), dict(part="sentinels")], max_paths=200, timeout_s=60,
+               axioms=_AX15, encodes=[_HT.HydrodynamicsTemplateModel.maxAl, _HT.HydrodynamicsTemplateModel._eqWall],
+               random_validation=2, concrete_alarms=False, feas_timeout_ms=300),
     HarnessDef("lte-matching", h_lte_matching, [dict()], max_paths=400, timeout_s=60, axioms=AX,
                encodes=[HY.Hydrodynamics.matchDeflagOrHyb, HY.Hydrodynamics.vpvmAndvpovm],
                random_validation=1, concrete_alarms=False, feas_timeout_ms=300),
